@@ -29,6 +29,8 @@ type FeatureSpec struct {
 	GbkLocationString, Sequence, SequenceHash string
 	Description, SequenceHashFunction         string
 	Loc                                       insdc.Node
+	// EmptySubs: the leaves of the location tree carry an empty, non-nil SubLocations slice
+	EmptySubs bool
 }
 
 type Case struct {
@@ -64,6 +66,9 @@ func build(c Case) poly.Sequence {
 	for _, f := range c.Features {
 		ft := poly.Feature{Name: f.Name, Source: f.Source, Type: f.Type, Score: f.Score, Strand: f.Strand, Phase: f.Phase, GbkLocationString: f.GbkLocationString,
 			Sequence: f.Sequence, SequenceHash: f.SequenceHash, Description: f.Description, SequenceHashFunction: f.SequenceHashFunction, SequenceLocation: f.Loc.Structure()}
+		if f.EmptySubs {
+			ft.SequenceLocation = emptyLeaves(ft.SequenceLocation)
+		}
 		if !f.AttributesNil {
 			ft.Attributes = map[string]string{}
 			for k, v := range f.Attributes {
@@ -75,34 +80,28 @@ func build(c Case) poly.Sequence {
 	return x
 }
 
-func normLoc(l poly.Location) poly.Location {
+// emptyLeaves gives every leaf of the tree an empty, non-nil list of sub-locations.
+func emptyLeaves(l poly.Location) poly.Location {
 	if len(l.SubLocations) == 0 {
-		l.SubLocations = nil
+		l.SubLocations = []poly.Location{}
 		return l
 	}
 	subs := make([]poly.Location, len(l.SubLocations))
 	for i, s := range l.SubLocations {
-		subs[i] = normLoc(s)
+		subs[i] = emptyLeaves(s)
 	}
 	l.SubLocations = subs
 	return l
 }
 
-// normalise: parent pointers dropped, nil and empty collections made equal.
+// normalise drops the parent pointers. Absent (nil) and empty collections are kept apart - the
+// JSON form distinguishes null from [] / {} and the property lists "empty and absent
+// collections" - except for Sequence.Features, where polyjson.Parse itself turns an absent list
+// into an empty one.
 func normalise(x poly.Sequence) poly.Sequence {
-	if len(x.Meta.References) == 0 {
-		x.Meta.References = nil
-	}
-	if len(x.Meta.Other) == 0 {
-		x.Meta.Other = nil
-	}
 	fs := make([]poly.Feature, len(x.Features))
 	for i, f := range x.Features {
 		f.ParentSequence = nil
-		if len(f.Attributes) == 0 {
-			f.Attributes = nil
-		}
-		f.SequenceLocation = normLoc(f.SequenceLocation)
 		fs[i] = f
 	}
 	x.Features = fs
@@ -257,6 +256,9 @@ func labels(c Case) []string {
 			if d := depth(f.Loc); d >= 1 {
 				set[fmt.Sprintf("nested location depth %d", min(d, 4))] = true
 			}
+			if f.EmptySubs {
+				set["empty non-nil sub-location lists"] = true
+			}
 			if f.AttributesNil {
 				set["attributes nil"] = true
 			} else if len(f.Attributes) == 0 {
@@ -347,6 +349,7 @@ func genValue(t *rapid.T) Case {
 		f.Attributes = drawMap(t, fn+"_attr")
 		f.AttributesNil = len(f.Attributes) == 0 && rapid.Bool().Draw(t, fn+"_attr_nil")
 		f.Loc = insdc.Draw(t, fn+"_loc", n, rapid.IntRange(0, 4).Draw(t, fn+"_loc_depth"))
+		f.EmptySubs = rapid.IntRange(0, 3).Draw(t, fn+"_empty_sublocations") == 0
 		c.Features = append(c.Features, f)
 	}
 	return c
